@@ -56,6 +56,26 @@ class WriteBarrier:
             self.frozen.add(id(o))
         self._keep = getattr(self, '_keep', []) + list(objs)
 
+    def _snapshot(self):
+        # attribute dictionaries of the frozen objects: a write that goes around __setattr__ (vars(obj)[k] = v,
+        # obj.__dict__.update(...)) is found by comparing them after the run
+        return {id(o): dict(vars(o)) for o in getattr(self, '_keep', []) if hasattr(o, '__dict__')}
+
+    def _compare(self):
+        for o in getattr(self, '_keep', []):
+            before = self._snap.get(id(o))
+            if before is None:
+                continue
+            now = vars(o)
+            for k in set(before) | set(now):
+                if k not in now or k not in before or now[k] is not before[k]:
+                    if not any(w[0] == type(o).__name__ and w[1] == k for w in self.writes):
+                        self.writes.append((type(o).__name__, k, before.get(k), now.get(k)))
+                    if k in before:
+                        now[k] = before[k]          # put the pre-state back: later paths and later obligations start clean
+                    else:
+                        now.pop(k, None)
+
     def __enter__(self):
         wb = self
         for cls in self.classes:
@@ -68,11 +88,13 @@ class WriteBarrier:
                     object.__setattr__(obj, name, value)
                 return __setattr__
             cls.__setattr__ = mk(cls)
+        self._snap = self._snapshot()
         self.armed = True
         return self
 
     def __exit__(self, *a):
         self.armed = False
+        self._compare()
         for cls, old in self._old.items():
             if old is None:
                 try:
